@@ -950,15 +950,13 @@ func evalFunctionCall(node *jparse.FunctionCallNode, data reflect.Value, env *en
 	}
 
 	// Go callables are shared by every expression (and every
-	// goroutine) that uses them. Setting the name and context
-	// on the shared object would leak them into other calls of
-	// the same function (e.g. calls nested in this call's own
-	// arguments, or calls in concurrent evaluations), so make
-	// the changes on a copy.
-	if gc, ok := fn.(*goCallable); ok {
-		c := *gc
-		fn = &c
-	}
+	// goroutine) that uses them, and any other function value
+	// can be shared too (e.g. through RegisterVars). Setting
+	// the name and context on the shared object would leak
+	// them into other calls of the same function (e.g. calls
+	// nested in this call's own arguments, or calls in
+	// concurrent evaluations), so make the changes on a copy.
+	fn = copyCallable(fn)
 
 	if setter, ok := fn.(nameSetter); ok {
 		if sym, ok := node.Func.(*jparse.VariableNode); ok {
@@ -983,6 +981,36 @@ func evalFunctionCall(node *jparse.FunctionCallNode, data reflect.Value, env *en
 	}
 
 	return fn.Call(argv)
+}
+
+// copyCallable returns a shallow copy of one of this package's
+// function objects. Other Callables are returned as they are.
+func copyCallable(fn jtypes.Callable) jtypes.Callable {
+	switch f := fn.(type) {
+	case *goCallable:
+		c := *f
+		return &c
+	case *lambdaCallable:
+		c := *f
+		return &c
+	case *partialCallable:
+		c := *f
+		return &c
+	case *transformationCallable:
+		c := *f
+		return &c
+	case *regexCallable:
+		c := *f
+		return &c
+	case *matchCallable:
+		c := *f
+		return &c
+	case *chainCallable:
+		c := *f
+		return &c
+	default:
+		return fn
+	}
 }
 
 func evalFunctionApplication(node *jparse.FunctionApplicationNode, data reflect.Value, env *environment) (reflect.Value, error) {
